@@ -263,24 +263,46 @@ def initTrial {ε : Type} (K : Nat) (evs : List ε) (sel : Option (Method ε))
 structure TdmObj (ε : Type) where
   events : List ε
   srcEvtIdxs : Option Pairs
+  /-- `_n_sources` -/
+  nSources : Nat
+  /-- `_n_events`: the *stated* total number of events of the data set (≥ the events held) -/
+  nEvents : Nat
 
 /-- a freshly constructed manager (`_events = None` is represented by no events) -/
-def TdmObj.fresh {ε : Type} : TdmObj ε := { events := [], srcEvtIdxs := none }
+def TdmObj.fresh {ε : Type} : TdmObj ε := { events := [], srcEvtIdxs := none, nSources := 0, nEvents := 0 }
 
-/-- `initialize_trial` as a method of the object, statement by statement: `self.events = events`;
-`self._src_evt_idxs = None` (only if `reset`, a fact about the current source); selection; sort +
-re-index *if a table is stored*; default table *if none is stored*.  Returns the post-state
-(`none` = exception). -/
+/-- `n_selected_events` -/
+def TdmObj.nSelected {ε : Type} (s : TdmObj ε) : Nat := s.events.length
+/-- `get_n_values()` (`none` = no table stored: TypeError) -/
+def TdmObj.nValues {ε : Type} (s : TdmObj ε) : Option Nat := s.srcEvtIdxs.map List.length
+/-- `n_pure_bkg_events = n_events - n_selected_events` -/
+def TdmObj.nPureBkg {ε : Type} (s : TdmObj ε) : Int := (s.nEvents : Int) - (s.events.length : Int)
+
+/-- `if n_events is None: n_events = len(self._events)` -/
+def statedN (nEv : Option Nat) (n : Nat) : Nat :=
+  match nEv with
+  | none => n
+  | some N => N
+
+/-- `initialize_trial(shg_mgr, pmm, events, n_events, evt_sel_method)` as a method of the object,
+statement by statement: `self.events = events`; `self._src_evt_idxs = None` (only if `reset`);
+`self._n_sources = shg_mgr.n_sources`; `self.n_events = n_events if given else len(events)`;
+selection; sort + re-index *if a table is stored*; default table *if none is stored*, built from the
+stored number of sources and the number of events *held* (`n_selected_events`), not from the stated
+`n_events`.  Returns the post-state (`none` = exception). -/
 def initTrialObj {ε : Type} (reset : Bool) (self : TdmObj ε) (K : Nat) (evs : List ε)
-    (sel : Option (Method ε)) (argsort : Option (List ε → List Nat)) : Option (TdmObj ε) :=
-  let s0 : TdmObj ε := { events := evs, srcEvtIdxs := if reset then none else self.srcEvtIdxs }
+    (sel : Option (Method ε)) (argsort : Option (List ε → List Nat)) (nEv : Option Nat := none) :
+    Option (TdmObj ε) :=
+  let nE : Nat := statedN nEv evs.length
+  let s0 : TdmObj ε :=
+    { events := evs, srcEvtIdxs := if reset then none else self.srcEvtIdxs, nSources := K, nEvents := nE }
   let s1? : Option (TdmObj ε) :=
     match sel with
     | none => some s0
     | some m =>
       match m s0.events none with
       | none => none
-      | some r => some { events := r.events, srcEvtIdxs := some r.pairs }
+      | some r => some { s0 with events := r.events, srcEvtIdxs := some r.pairs }
   match s1? with
   | none => none
   | some s1 =>
@@ -293,14 +315,15 @@ def initTrialObj {ε : Type} (reset : Bool) (self : TdmObj ε) (K : Nat) (evs : 
         | none => none
         | some sorted =>
           match s1.srcEvtIdxs with
-          | none => some { events := sorted, srcEvtIdxs := none }
+          | none => some { s1 with events := sorted, srcEvtIdxs := none }
           | some P =>
             match reindex σ P with
             | none => none
-            | some P' => some { events := sorted, srcEvtIdxs := some P' }
+            | some P' => some { s1 with events := sorted, srcEvtIdxs := some P' }
     match s2? with
     | none => none
-    | some s2 => some { events := s2.events, srcEvtIdxs := some (incTable K s2.events.length s2.srcEvtIdxs) }
+    | some s2 =>
+      some { s2 with srcEvtIdxs := some (incTable s2.nSources s2.nSelected s2.srcEvtIdxs) }
 
 /-- one call of a history -/
 structure TdmCall (ε : Type) where
@@ -308,6 +331,7 @@ structure TdmCall (ε : Type) where
   evs : List ε
   sel : Option (Method ε)
   argsort : Option (List ε → List Nat)
+  nEv : Option Nat := none
 
 /-- run a history of calls on one manager.  What a raising call leaves behind (the code has already
 overwritten `_events`, possibly `_src_evt_idxs`) is not fixed here: `onRaise` is an arbitrary
@@ -316,7 +340,7 @@ def runCalls {ε : Type} (reset : Bool) (onRaise : TdmObj ε → TdmCall ε → 
     List (TdmCall ε) → TdmObj ε
   | [] => self
   | c :: cs =>
-    match initTrialObj reset self c.K c.evs c.sel c.argsort with
+    match initTrialObj reset self c.K c.evs c.sel c.argsort c.nEv with
     | none => runCalls reset onRaise (onRaise self c) cs
     | some s => runCalls reset onRaise s cs
 
